@@ -224,7 +224,18 @@ def witness_crate(d: Decl, extra_inputs=()):
         body.append('            let real_de = if tag == " in Vec" { match serde_json::from_str::<Vec<%s>>(&d2) { Ok(mut v) => format!("Ok({:?})", v.pop().unwrap().into_inner()), Err(_) => "Err".to_string() } } '
                     'else if tag == " in Option" { match serde_json::from_str::<Option<%s>>(&d2) { Ok(Some(v)) => format!("Ok({:?})", v.into_inner()), _ => "Err".to_string() } } '
                     'else { match serde_json::from_str::<%s>(&d2) { Ok(v) => format!("Ok({:?})", v.into_inner()), Err(_) => "Err".to_string() } };\n' % (S, S, S))
-        body.append('            report("Deserialize", &format!("JSON {}{}", d2, tag), setting, real_de, expected_de.clone(), n);\n        }\n    } }\n')
+        body.append('            report("Deserialize", &format!("JSON {}{}", d2, tag), setting, real_de, expected_de.clone(), n);\n        }\n')
+        # deserialize_in_place (public, safe; serde's Vec / Option impls forward to it) on an EXISTING valid value
+        olds = {'string': '["a", "abc", " b ", "hello world"].map(|s| s.to_string())', 'int': '[0 as %s, 1 as %s, 7 as %s, 50 as %s, 100 as %s]' % ((I,) * 5),
+                'float': '[0.0 as %s, 1.0 as %s, 7.5 as %s, 100.0 as %s]' % ((I,) * 4)}[d.family]
+        body.append('        for o in %s {\n' % olds)
+        body.append('            let made = %s;\n' % ('%s::try_new(o.clone()).ok()' % S if has_v else 'Some(%s::new(o.clone()))' % S))
+        body.append('            if let Some(mut place) = made {\n'
+                    '                let r = <%s as serde::Deserialize>::deserialize_in_place(&mut serde_json::Deserializer::from_str(&doc), &mut place);\n' % S +
+                    '                let now = place.into_inner();\n'
+                    '                let real_ip = format!("{} / existing value still valid: {}", match &r { Ok(()) => format!("Ok({:?})", now), Err(_) => "Err".to_string() }, %s::valid(&now));\n' % R +
+                    '                report("Deserialize", &format!("deserialize_in_place of JSON {} into an existing {:?}", doc, o), setting, real_ip, format!("{} / existing value still valid: true", expected_de), n);\n'
+                    '            }\n        }\n    } }\n')
         if d.family == 'string':
             # newtype-protocol documents that hand the text over as UTF-8 bytes
             body.append('    {\n        let via_string: Result<String, serde::de::value::Error> = <String as serde::Deserialize>::deserialize(serde::de::value::BytesDeserializer::new(x.as_bytes()));\n'
